@@ -8,6 +8,10 @@ Tie: `TableList.formOutT` is run by the driver (`controls.model`) on every gener
 (instance name tree with template marks, bind nodesets, body refs) must equal the implementation's; the
 oracle (closure of every nodeset/ref incl. setvalue/action refs, sibling uniqueness, one bind per node) is
 evaluated by the Lean function `resolves` on the implementation's own instance and refs (op `form.closed`).
+Row-level `flat` groups: Pyxv/Model/FormFlat.lean + FormFlatInst.lean, theorems in Pyxv/Proofs/C02Flat.lean
+(`refs_resolve_flat`, `siblings_unique_flat`, `flat_clash_rejected`, `bindPathsFL_eq_lift`, …) and C02FlatInst.lean
+(`instKidsF_eq_lift`, `flat_instance_walk`, `refs_resolve_flat_walk`, `walkOut_eq`); tie: ops `flat.model` / `flat.walk`
+on the `flat_form` stream (accept/reject, instance tree, bind nodesets, body refs).
 """
 
 from __future__ import annotations
